@@ -218,7 +218,7 @@ var ioattRe = regexp.MustCompile(`(?m)^%meta\s+ioatt\s+(\S+)\s+(.*)$`)
 // every external port the source attaches must exist and be bonded, and every two-ended ioatt name
 // must have become one bond. CP endpoints are counted, not named (the numbering of processors is the
 // assembler's business).
-func ioAdequacy(src string, bm *bondmachine.Bondmachine) (string, string) {
+func ioAdequacy(src string, bm *bondmachine.Bondmachine, assumeUsed bool) (string, string) {
 	type end struct {
 		cp, typ string
 		idx     int
@@ -278,7 +278,7 @@ func ioAdequacy(src string, bm *bondmachine.Bondmachine) (string, string) {
 		}
 		judged := true
 		for _, e := range es {
-			if e.cp != "bm" && !portUsed(fmt.Sprintf("%c%d", e.typ[0], e.idx)) {
+			if e.cp != "bm" && !assumeUsed && !portUsed(fmt.Sprintf("%c%d", e.typ[0], e.idx)) {
 				judged = false
 			}
 		}
@@ -512,7 +512,8 @@ func main() {
 
 	judge := func(name, class string, bm *bondmachine.Bondmachine, w map[string]any) {
 		if src, _ := w["source"].(string); src != "" && strings.Contains(src, "%meta ioatt") && !strings.Contains(src, "%fragment") && !strings.Contains(src, "filinkatt") {
-			if cls, detail := ioAdequacy(src, bm); cls != "" {
+			_, generated := w["generated_basm"]
+			if cls, detail := ioAdequacy(src, bm, generated); cls != "" {
 				w["what"] = detail
 				run.Violation("malformed-machine:"+cls+":"+class, w)
 				return
@@ -623,6 +624,12 @@ func main() {
 				return
 			}
 		}
+		if gb, err := os.ReadFile(filepath.Join(dir, "out.basm")); err == nil {
+			// the .basm a front end wrote: every port it attaches is a port of a generated CP (the neuron
+			// code lives in library files, so "the code uses the port" cannot be read off this text)
+			w["source"] = string(gb)
+			w["generated_basm"] = true
+		}
 		b, err := os.ReadFile(filepath.Join(dir, result))
 		if err != nil {
 			run.Inconclusive("tool-produced-no-machine:" + steps[len(steps)-1][0])
@@ -672,6 +679,44 @@ func main() {
 					append([]string{"basm", "-disable-dynamical-matching", "-o", "bm.json", "out.basm"}, neuronArgs[mode]...),
 				}
 				cli("neuralbond-"+net+"-"+mode+"-"+io, "neuralbond", steps, map[string]string{"net.json": string(nb), "conf.json": `{"Params":{"expprec":"2"}}`}, "bm.json")
+			}
+		}
+	}
+	// sparse nets: one connection removed from a repository net, so that some node's sources are not a
+	// contiguous block of the previous layer
+	for _, net := range []string{"net-testsmall.json", "net-testnormal.json"} {
+		nb, err := os.ReadFile(filepath.Join(repo, "cmd/neuralbond", net))
+		if err != nil {
+			continue
+		}
+		var nj struct {
+			Nodes   []map[string]any
+			Weights []map[string]any
+		}
+		if json.Unmarshal(nb, &nj) != nil {
+			continue
+		}
+		fanin := map[string]int{}
+		key := func(w map[string]any) string { return fmt.Sprint(w["Layer"], "/", w["PosCurrLayer"]) }
+		for _, w := range nj.Weights {
+			fanin[key(w)]++
+		}
+		made := 0
+		for drop := range nj.Weights {
+			w := nj.Weights[drop]
+			// a middle source of a node with at least three sources
+			if fanin[key(w)] < 3 || fmt.Sprint(w["PosPrevLayer"]) != "1" || made >= 2 {
+				continue
+			}
+			made++
+			pruned := map[string]any{"Nodes": nj.Nodes, "Weights": append(append([]map[string]any{}, nj.Weights[:drop]...), nj.Weights[drop+1:]...)}
+			pb, _ := json.Marshal(pruned)
+			for _, io := range []string{"sync", "async"} {
+				steps := [][]string{
+					{"neuralbond", "-net-file", "net.json", "-config-file", "conf.json", "-neuron-lib-path", filepath.Join(repo, "library/neurons"), "-save-basm", "out.basm", "-operating-mode", "romcode", "-io-mode", io},
+					append([]string{"basm", "-disable-dynamical-matching", "-o", "bm.json", "out.basm"}, neuronArgs["romcode"]...),
+				}
+				cli(fmt.Sprintf("neuralbond-pruned-%s-w%d-%s", net, drop, io), "neuralbond-sparse", steps, map[string]string{"net.json": string(pb), "conf.json": `{"Params":{"expprec":"2"}}`}, "bm.json")
 			}
 		}
 	}
